@@ -1,6 +1,7 @@
 package minersc
 
 import (
+	"0chain.net/core/sortedmap"
 	"encoding/hex"
 	"errors"
 	"fmt"
@@ -393,7 +394,10 @@ func (gn *GlobalNode) set(key string, change string) error {
 }
 
 func (gn *GlobalNode) update(changes config.StringMap) error {
-	for key, value := range changes.Fields {
+	// sorted keys: with several invalid entries the reported error (the transaction output, which all
+	// nodes must agree on) would otherwise depend on Go's random map iteration order
+	for _, key := range sortedmap.NewFromMap(changes.Fields).GetKeys() {
+		value := changes.Fields[key]
 		if err := gn.set(key, value); err != nil {
 			return err
 		}
